@@ -36,7 +36,7 @@ META = dict(
     need=["binary_ops", "comparisons", "contractions", "partial_contractions", "weights", "vdots",
           "norms", "mismatch_rejections", "equal_description_operands", "multifield_ops",
           "multifield_unite", "scalar_variants"],
-    quick=dict(cases=1200, workers=4, budget_s=60),
+    quick=dict(cases=3000, workers=4, budget_s=60),
     thorough=dict(cases=40000, workers=16, budget_s=600),
     design_ref="DESIGN.md §5 C06",
     level_text=("generated (domain tuple, dtype, operation, subset) combinations against a NumPy oracle; "
